@@ -228,6 +228,11 @@ def run_inject(spec, k=None):
             later, first = spec["probes"][-1], spec["probes"][0]
             for k in (0, 1):
                 probes.insert(0, {"args": first["args"], "kw": first["kw"], "script": [["site", k, later["args"], {}]]})
+            # ... and walk the delegation chain of the interrupted call itself (its first rank may already be cached
+            # while the continuation entries are not)
+            for k in (0, 1):
+                probes.insert(0, {"args": later["args"], "kw": later["kw"],
+                                  "script": [["site", k, "same"], ["site", k, "same"], ["site", k, "same"]]})
         expected = fresh_expect(pspec, env, ids, probes)
         check_probes(res, prog, env, probes, expected,
                      f"after a fault injected at {where[0]}:{where[1]} ({where[2]}) during '{spec['scenario']}' "
@@ -455,6 +460,9 @@ class Check:
         if tier == "quick":
             t = [{"kind": "rand", "seed": seed * 1000 + i, "n": 120} for i in range(14)]
             t += [{"kind": "enum", "seed": seed * 1000 + 700 + i, "sets": 1, "stride": 9, "offset": i} for i in range(2)]
+            # the multi-step writes of a resolution sit at the end of the operation: enumerate that part densely
+            t += [{"kind": "enum", "seed": seed * 1000 + 800 + i, "sets": 1, "stride": 1, "offset": 0, "tail": 0.22}
+                  for i in range(4)]
             return t
         t = [{"kind": "rand", "seed": seed * 1000 + i, "n": 3000} for i in range(8)]
         t += [{"kind": "enum", "seed": seed * 1000 + 700 + i, "sets": 1, "stride": 1, "offset": 0} for i in range(8)]
@@ -485,7 +493,10 @@ class Check:
                 for entry in ("dispatch", "ovld"):
                     probe = dict(b, kind="inject", scenario=sc, entry=entry, frac=0.0)
                     total = count_lines(probe)
-                    for k in range(1 + task["offset"], total + 1, task["stride"]):
+                    start = 1 + task["offset"]
+                    if task.get("tail"):
+                        start = max(1, int(total * (1 - task["tail"])))
+                    for k in range(start, total + 1, task["stride"]):
                         specs.append(dict(probe, k=k))
         R.run_enumerated(st, specs, run_case, sigs)
         st.extra["enumerated_line_points"] = len(specs)
